@@ -1783,20 +1783,38 @@ CHECKS = {"C20": check_C20, "C18": check_C18, "C14": check_C14, "C01": check_C01
 
 
 def setup():
+    """builds everything once: harness, regenerated inventories (from /repo as it is now), the whole Coq development, the
+    extracted model.  A property file that does not compile (a regenerated obligation that no longer holds for the /repo at
+    hand) does not fail setup: the property's own check reports it."""
     t0 = time.time()
     probs = lint()
     for p in probs:
         print("lint:", p)
-    sh("make clean", cwd=COQ) if os.path.exists(os.path.join(COQ, "Makefile")) else None
-    ok, out = build_coq()
-    print(out[-2000:])
-    if not ok:
-        return 1
-    build_modelrun()
     ok, out = build_vh()
     if not ok:
         print(out)
         return 1
+    for tr in ("mapsites", "panicsites", "access"):
+        rc, out = sh([os.path.join(BUILD, "bin", "vh"), tr], env=GOENV, cwd=HARNESS, timeout=900)
+        print("translator %s: %s" % (tr, out.strip().split("\n")[-1] if out.strip() else rc))
+    if not os.path.exists(os.path.join(COQ, "Makefile")):
+        sh("coq_makefile -f _CoqProject -o Makefile", cwd=COQ)
+    sh("make clean", cwd=COQ)
+    rc, out = sh("make -k -j16", cwd=COQ, timeout=3000)
+    print(out[-1500:])
+    missing = []
+    for f in coq_files():
+        rel = os.path.relpath(f, COQ)
+        if not rel.startswith("theories/"):
+            continue
+        if not os.path.exists(f[:-2] + ".vo"):
+            missing.append(rel)
+    core_missing = [m for m in missing if not m.startswith("theories/Properties/")]
+    if missing:
+        print("not compiled:", ", ".join(missing))
+    if core_missing:
+        return 1
+    build_modelrun()
     print("setup done in %.1f s" % (time.time() - t0))
     return 1 if probs else 0
 
